@@ -22,6 +22,15 @@ pub fn starts() -> Vec<Start> {
     ]
 }
 
+/// tiny forests explored one level deeper than the others
+pub fn tiny_starts() -> Vec<Start> {
+    let s = |name: &str, forest: Vec<A>| Start { name: name.into(), forest, adjacent_text: false, consolidation: true, parse: vec![] };
+    vec![
+        s("tiny-sandwich", vec![A::doc(vec![A::el("", "a").child(A::text("x")).child(A::el("", "b")).child(A::text("y"))]), A::text("u")]),
+        s("tiny-attr", vec![A::el("", "a").attr("", "k", "1").child(A::el("", "b").child(A::text("x"))), A::comment("c")]),
+    ]
+}
+
 pub fn small_starts() -> Vec<Start> {
     let all = starts();
     vec![all[0].clone(), all[2].clone(), all[4].clone(), all[5].clone()]
